@@ -634,3 +634,68 @@ func rawKeyID(key *Term) *Term {
 	}
 	return nil
 }
+
+// checkPnftViewsDoNotRewriteEntities: a keeper function that assigns to a field of a decoded denom or token is one that saves it
+// (it reaches an x/nft mutator or a raw store write). A getter or lister that rewrites a field (a "canonical" owner spelling,
+// an inherited uri) shows something the listings — which filter on the stored value — do not agree with.
+func checkPnftViewsDoNotRewriteEntities(p *Prog, r *Report, kp func(string, string) string) {
+	rule := "only the functions that save a denom or token assign its fields: what a getter returns is what is stored (listings filter on the stored value)"
+	nFn, nBad := 0, 0
+	for _, fn := range p.ModFuncs {
+		if fn.Blocks == nil || p.IsGenerated(fn) || !inExactPkgs(fn, "x/pnft/keeper") {
+			continue
+		}
+		var at ssa.Instruction
+		fname := ""
+		for _, b := range fn.Blocks {
+			for _, in := range b.Instrs {
+				st, ok := in.(*ssa.Store)
+				if !ok {
+					continue
+				}
+				fa, ok := st.Addr.(*ssa.FieldAddr)
+				if !ok {
+					continue
+				}
+				if _, isLocal := fa.X.(*ssa.Alloc); isLocal {
+					continue // a literal under construction
+				}
+				pt, ok := fa.X.Type().Underlying().(*types.Pointer)
+				if !ok {
+					continue
+				}
+				n, ok := pt.Elem().(*types.Named)
+				if !ok || n.Obj().Pkg() == nil || n.Obj().Pkg().Path() != Rel("x/pnft/types") || (n.Obj().Name() != "Denom" && n.Obj().Name() != "Pnft") {
+					continue
+				}
+				at, fname = st, n.Obj().Name()+"."+fieldAddrName(fa)
+			}
+		}
+		if at == nil {
+			continue
+		}
+		nFn++
+		saves := false
+		for _, g := range p.ReachFrom([]*ssa.Function{fn}, func(f *ssa.Function) bool { return InModule(f) && !p.IsGenerated(f) }).Order {
+			for _, cs := range callSites(g) {
+				if cs.Callee != nil {
+					if m, ok := isNftKeeperMethod(resolveBound(cs.Callee)); ok {
+						if _, mut := nftMutators[m]; mut {
+							saves = true
+						}
+					}
+				}
+				if strings.HasSuffix(cs.Name, "KVStore.Set") || strings.HasSuffix(cs.Name, "prefix.Store).Set") {
+					saves = true
+				}
+			}
+		}
+		if !saves {
+			nBad++
+		}
+		r.Check(saves, kp("WMC", FuncName(fn)+"#assigns-"+fname+"-only-to-save"), rule, p.Pos(at.Pos()), "the function saves what it changed",
+			fmt.Sprintf("%s assigns %s of a decoded entity but never saves it: callers see a value that is not the stored one, while DenomsByOwner / PNFTsByDenomOwner compare the stored value — the single-item view and the listings disagree", FuncName(fn), fname))
+	}
+	r.Count("pnft-keeper-functions-assigning-entity-fields", nFn)
+	_ = nBad
+}
